@@ -150,6 +150,31 @@ PROPS = {
                 "MOC be right. All of it is direct observation of the real binary (op line = point reached). distinct_nontrivial = distinct (update, point) pairs.",
         "explanation": "theorems on the effect-order model of append: every prefix of the repaired order is reader-consistent with listing before|after, WF preserved, the original order is inconsistent after the meta store",
     },
+    "C08": {
+        "trusted_base": COMMON_TB + ["specification-level model (point-set semantics, validity predicates); the Rust 2-D state machines are not transliterated: agreement is established point by point on a grid of representative instants/positions over an 8 x 4 cell universe"],
+        "assumptions": COMMON_ASSUME + ["operands have the shape the library's own builders produce (elements = consecutive blocks in time order, consecutive elements with different space MOCs)",
+            "termination / absence of unreachable!() in the Rust union are OBSERVED (panic is an answer), not proved"],
+        "rule": "random valid ST-MOCs over 8 time cells (depth 2) x 4 space cells (depth 0) with 0..4 elements, multi-range time MOCs, equal / empty operands: the three forms of the union "
+                "(or, into_or, iterator or) in both operand orders: point-set (85 grid points incl. every shared time boundary) against the specification, validSTB on every output, depths. "
+                "distinct_nontrivial = distinct op lines with a non-empty operand.",
+        "explanation": "theorems on the union specification and the validity predicate; point-wise correspondence of the real operator",
+    },
+    "C09": {
+        "trusted_base": COMMON_TB + ["specification-level model (point-set semantics, validity predicates); the Rust 2-D state machines are not transliterated: agreement is established point by point on a grid of representative instants/positions over an 8 x 4 cell universe"],
+        "assumptions": COMMON_ASSUME + ["positions enter as space cells (the hash of a position is cdshealpix's)", "the store wrappers are thin and not driven separately"],
+        "rule": "random observation lists (0..6 (time range, cell) observations over 8 x 4 cells: overlapping and touching time ranges, simultaneous observations at different positions, first observation "
+                "not the earliest, duplicates) x buffer capacities {1,2,3,100}: both streaming builders and the range-2D path (create_from_time_ranges_spatial_coverage) against the specification on "
+                "the grid. distinct_nontrivial = distinct op lines with more than one observation.",
+        "explanation": "theorems: specification = union of the products, order/duplicate independence, counterexample for the original make_consistent seed; point-wise correspondence of the three real paths",
+    },
+    "C10": {
+        "trusted_base": COMMON_TB + ["specification-level model (point-set semantics, validity predicates); the Rust 2-D state machines are not transliterated: agreement is established point by point on a grid of representative instants/positions over an 8 x 4 cell universe"],
+        "assumptions": COMMON_ASSUME + ["the CLI and store entry points are compositions of the functions driven here (driven under C13/C19)"],
+        "rule": "random valid flat ST-MOC pairs over 8 x 4 cells (equal, empty, random): union / intersection / difference of the Ranges2D algebra against the point-wise specification + validFlatB on "
+                "every result; time fold and space fold against their specifications; lookups (flat `contains` and `RangeMOC2::contains_val`) at grid points incl. boundaries shared by consecutive "
+                "time ranges. distinct_nontrivial = distinct op lines with a non-empty operand.",
+        "explanation": "theorems: point-wise Boolean combinations, intersection product form, fold semantics (range reading = instant reading), half-open lookup; correspondence of the real code",
+    },
 }
 
 
@@ -169,6 +194,8 @@ def judge_prepare(prop, op, impl, model, collect):
         return const(True, "the implementation panicked on an input on which the (proved total) model answers " + model[:200])
     if name == "valid":
         return const(True, "the implementation produced a MOC that is not canonical / not inside the domain / not aligned on its declared depth (validB = false)")
+    if name in ("st_valid", "st_validflat"):
+        return const(True, "the space-time MOC returned by the implementation violates the validity conditions of the property (validSTB / validFlatB = false)")
     if name == "hintok":
         return const(True, "peek_last / size_hint advertised by the implementation are inconsistent with the ranges it then yields (hintOkB = false)")
     if name.startswith("l_"):
